@@ -3,7 +3,7 @@ CONSTANTS
   MaxDepth = 5
   MaxNodes = 9
 INIT Init
-NEXT Next
+NEXT NextB
 CONSTRAINT Bound
 INVARIANT InvCanonical
 INVARIANT InvInjective
